@@ -27,7 +27,8 @@ SIG_ROUNDING = "x2max0-exact-match-rounding"
 CHECK_ARGS = dict(
     pkg="bmci", props="Proofs.Props.C18", driver="drv_c18",
     lemma_files=["Proofs/Lemmas/ListAux.lean", "Proofs/Lemmas/Window.lean", "Proofs/Lemmas/Stats.lean",
-                 "Proofs/Lemmas/Interp.lean", "Proofs/Lemmas/Ecdf.lean", "Proofs/Lemmas/Spectral.lean"],
+                 "Proofs/Lemmas/Interp.lean", "Proofs/Lemmas/Ecdf.lean", "Proofs/Lemmas/Spectral.lean",
+                 "Proofs/Lemmas/VarShift.lean"],
     model_files=["Model/Bmci.lean"],
     trusted=[
         "hand-written model Model/Bmci.lean tied to typhon/retrieval/bmci/bmci.py by the correspondence run of this check "
@@ -39,8 +40,9 @@ CHECK_ARGS = dict(
         "exp, sqrt, eig, inv, dot are outside the model: weights enter as arbitrary non-negative numbers, s_l/s_u as numbers with s_l <= s_u",
     ],
     assumptions=[
-        "spectral inequality chi2_i >= pc1_e * (proj_i - y_proj)^2 is a named hypothesis of C18_window_sound (not derived from the eigen-decomposition); "
-        "the oracle checks its consequence entry by entry on every generated case",
+        "spectral inequality chi2_i >= pc1_e * (proj_i - y_proj)^2 is a hypothesis of C18_window_sound; C18_spectral_inequality derives it for a unit "
+        "eigenpair of a positive definite real matrix; that np.linalg.eig delivers such a pair (and inv the inverse) is trusted, "
+        "and the oracle checks the consequence entry by entry on every generated case",
         "s_o symmetric positive definite, database and observation finite (no NaN/inf), x2_max >= 0 or unrestricted (< 0)",
         "estimates compared numerically only when the total weight is not tiny (sum w > 1e-290) and chi2 is well-conditioned",
     ])
@@ -162,8 +164,8 @@ def gen_case(rng, tier):
     if tier == "quick":
         n = int(g.choice([1, 2, 3, int(g.integers(4, 30)), int(g.integers(30, 120)), int(g.integers(120, 301))]))
     else:
-        n = int(g.choice([1, 2, int(g.integers(3, 30)), int(g.integers(30, 300)), int(g.integers(300, 1500)),
-                          int(g.integers(300, 1500)) if g.random() < 0.8 else int(g.integers(1500, 5001))]))
+        n = int(g.choice([1, 2, int(g.integers(3, 30)), int(g.integers(30, 300)), int(g.integers(30, 300)),
+                          int(g.integers(300, 1500)) if g.random() < 0.7 else int(g.integers(1500, 5001))]))
     m = int(g.integers(1, 11))
     s_o, sstyle, ev = gen_spd(g, m)
     sd = np.sqrt(np.diag(s_o))
@@ -414,12 +416,17 @@ def run_case(ck, case, use_model=True):
                     ck.count("perm: window differs on the rim")
                 bad = (math.isnan(rp["mean"]) or abs(rp["mean"] - ro["mean"]) > extra_m + 4 * eps_w * Rw + 1e-9 * xabs
                        or abs(rp["sigma"] ** 2 - ro["sigma"] ** 2) > extra_v + 8 * eps_w * Rw * Rw + 1e-9 * xabs * xabs)
-                if not bad and set_o == set_p and not rp["cdf_nan"]:
-                    go, gp = ecdf_groups(cx, cc), ecdf_groups(rp["cdf_x"], rp["cdf_c"])
-                    bad = sorted(go) != sorted(gp) or any(abs(go[k] - gp[k]) > 4 * eps_w + 1e-9 for k in go)
+                what = "predict"
+                if not bad and set_o == set_p:
+                    if rp["cdf_nan"]:
+                        bad, what = True, "cdf (now NaN)"
+                    else:
+                        go, gp = ecdf_groups(cx, cc), ecdf_groups(rp["cdf_x"], rp["cdf_c"])
+                        bad = sorted(go) != sorted(gp) or any(abs(go[k] - gp[k]) > 4 * eps_w + 1e-9 for k in go)
+                        what = "the cdf as a function of x; predict"
                 if bad:
                     sig = SIG_ROUNDING if (x2 == 0.0 and set_o != set_p) else "perm-variant"
-                    ck.violation(sig, f"x2_max={x2}: permuting the database changes predict from ({ro['mean']!r},{ro['sigma']!r}) to "
+                    ck.violation(sig, f"x2_max={x2}: permuting the database changes {what} from ({ro['mean']!r},{ro['sigma']!r}) to "
                                       f"({rp['mean']!r},{rp['sigma']!r}) (windows {'equal' if set_o == set_p else 'differ'})", c1)
         # ---- model: the same arrays, bounds and weights as exact rationals
         if use_model:
@@ -614,7 +621,7 @@ def main():
     try:
         for name, c in vlib.load_corpus(PROP):
             run_case(ck, c, use_model)
-        explore(ck, ck.budget(110, 1500), use_model)
+        explore(ck, ck.budget(250, 800), use_model)
         if ck.broken() and not ck.violations:
             explore(ck, 1500, use_model=False, tier="quick")
         if ck.violations:
